@@ -728,6 +728,21 @@ def g12_keys_are_not_names(prog: Program, run: Run, rule: str, patterns: Sequenc
         return ast.unparse(head).split(".")[-1] in ("NamedItemList", "ItemAttributeList")
     for f in funcs_in(prog, patterns):
         env = None
+        # `x.short_name in <named list>`: the elements are objects, never strings
+        for x in walk_no_nested(f.node):
+            if isinstance(x, ast.Compare) and len(x.ops) == 1 and isinstance(
+                    x.ops[0], (ast.In, ast.NotIn)) and any(
+                        isinstance(y, ast.Attribute) and y.attr == "short_name"
+                        for y in ast.walk(x.left)) and isinstance(
+                            x.comparators[0], (ast.Attribute, ast.Name)):
+                env = env or TypeEnv(prog, f)
+                if named(env, x.comparators[0]):
+                    n += 1
+                    run.violation(rule, f"{f.module.rel}:{f.qual}", "short-name-in-object-list",
+                                  f"`{ast.unparse(x)}` tests a SHORT-NAME (a string) for "
+                                  "membership in a NamedItemList, whose elements are the objects "
+                                  "themselves: the test is always False",
+                                  f"{f.module.rel}:{x.lineno}", ast.unparse(x))
         key_vars: Dict[str, ast.AST] = {}
         key_calls: List[ast.Call] = []
         for x in walk_no_nested(f.node):
